@@ -4,6 +4,8 @@ import CkbVerif.Lemmas.Filter
 import CkbVerif.Lemmas.FilterRestart
 import CkbVerif.Lemmas.MMRSize
 import CkbVerif.Lemmas.MMRCommit
+import CkbVerif.Lemmas.MMRSound
+import CkbVerif.Lemmas.MMRBatch
 /-!
 # C19 — chain-root commitments, proofs and filter hashes match the chain they describe
 
@@ -113,17 +115,83 @@ example :
       (pushAll Term.node (recreate m 2) [.leaf 13]).bind (getRoot Term.node))
     = some (.node (.node (.leaf 0) (.leaf 1)) (.node (.leaf 2) (.leaf 13))) := by decide
 
-/-- **`leaf_index_to_mmr_size` / `leaf_index_to_pos`**: after `n ≥ 1` pushes the MMR holds
-`2n - count_ones(n)` nodes, and the `(n+1)`-th leaf is written at exactly that position. -/
-theorem mmr_size_arith (merge : α → α → α) (s0 : Store α) (leaves : List α) (x : α) (hne : leaves ≠ []) :
-    ∃ m m', pushAll merge ⟨0, s0⟩ leaves = some m ∧ push merge m x = some (m', leafIndexToMmrSize (leaves.length - 1)) := by
-  obtain ⟨m, hm, -, hsz⟩ := root_eq_fold merge s0 leaves hne
+/-- **`leaf_index_to_mmr_size` / `leaf_index_to_pos`** (the two closed formulas the chain service, the
+snapshot and the light-client server rely on): after pushing `n` leaves (`n ≥ 0`, over any store)
+the `(n+1)`-th leaf is written at `leaf_index_to_pos(n)`, and the size is then
+`leaf_index_to_mmr_size(n) = 2(n+1) - count_ones(n+1)`. -/
+theorem mmr_size_arith (merge : α → α → α) (s0 : Store α) (leaves : List α) (x : α) :
+    ∃ m m', pushAll merge ⟨0, s0⟩ leaves = some m ∧
+      push merge m x = some (m', leafIndexToPos leaves.length) ∧
+      m'.size = leafIndexToMmrSize leaves.length := by
   have hinv0 : Inv (⟨0, s0⟩ : MMR α) [] := ⟨⟨0, trivial⟩, rfl, trivial⟩
-  obtain ⟨m1, hm1, hinv, -, -⟩ := pushAll_inv merge _ _ leaves hinv0
-  have : m1 = m := by rw [hm] at hm1; exact (Option.some.inj hm1).symm
-  subst this
-  obtain ⟨m', hp, -, -, -⟩ := push_inv merge m1 _ x hinv
-  exact ⟨m1, m', hm, by rw [← hsz]; exact hp⟩
+  obtain ⟨m, hm, hinv, -, -⟩ := pushAll_inv merge _ _ leaves hinv0
+  obtain ⟨m', hp, hinv', -, -⟩ := push_inv merge m _ x hinv
+  obtain ⟨⟨b, hd⟩, hlc⟩ := leafCount_specD merge leaves
+  have hpos := leafIndexToPos_spec hd
+  rw [hlc] at hpos
+  refine ⟨m, m', hm, ?_, ?_⟩
+  · have : m.size = szH (heights (specD merge leaves)) := hinv.size
+    rw [hpos, ← this]; exact hp
+  · have hd' : DescB (max b ((heights (specD merge leaves)).length + 1)) (inc (heights (specD merge leaves))) :=
+      DescB_inc (DescB_mono hd (by omega)) (by omega)
+    have hne : inc (heights (specD merge leaves)) ≠ [] := by
+      cases heights (specD merge leaves) with
+      | nil => simp [inc]
+      | cons x r => simp only [inc]; split <;> simp
+    have h1 := leafIndexToMmrSize_spec hd' hne
+    rw [leafCount_inc hd, hlc] at h1
+    simp only [Nat.add_sub_cancel] at h1
+    rw [h1]
+    have := hinv'.size
+    rw [heights_pushD] at this
+    exact this
+
+example : leafIndexToPos 10 = 18 ∧ leafIndexToMmrSize 10 = 19 ∧ leafIndexToMmrSize 1048575 = 2097151 := by decide
+
+/-- **The in-memory batch is invisible.** `MMR::push` as written appends to `MMRBatch.memory_batch`
+and reads through `MMRBatch::get_elem` (newest entry first, falling through to the store); only
+`commit` writes the store. For an MMR object created with `MMR::new(size, store)` and any number of
+pushes, the result is exactly that of the write-through model used by all other theorems: same
+success/failure, same size, and committing the batch yields the same store. -/
+theorem batch_eq_writethrough (merge : α → α → α) (size : Nat) (st : Store α) (xs : List α) :
+    (pushAllB merge ⟨size, [], st⟩ xs).map BMMR.flat = pushAll merge ⟨size, st⟩ xs :=
+  pushAllB_flat merge ⟨size, [], st⟩ (BOk_new size st) xs
+
+example : ((pushAllB Term.node ⟨0, [], Store.empty⟩ [.leaf 0, .leaf 1, .leaf 2]).map fun m =>
+    (m.size, m.batch.map (·.1), m.store 0, batchGet m.batch m.store 2)) =
+    some (4, [0, 1, 3], none, some (.node (.leaf 0) (.leaf 1))) := by decide
+
+/-- **An accepted block commits the chain root of its ancestors.** Once rfc0044 is active,
+`BlockExtensionVerifier` answers `ok` only for a block with exactly one extra field whose extension
+is 32..96 bytes long and *starts with the hash of the root of the MMR it was given* — which
+`reconcile_main_chain` creates at the parent's size over the store and which by `root_after_reorg`
+is the chain root of exactly the block's ancestors, on whichever fork the block lives. -/
+theorem extension_commits_parent_chain (extraFields : Nat) (extLen : Option Nat)
+    (rootAvailable prefixIsRoot extraHashOk : Bool)
+    (h : extensionVerdict true extraFields extLen rootAvailable prefixIsRoot extraHashOk = .ok) :
+    extraFields = 1 ∧ (∃ len, extLen = some len ∧ 32 ≤ len ∧ len ≤ 96) ∧
+      rootAvailable = true ∧ prefixIsRoot = true ∧ extraHashOk = true := by
+  unfold extensionVerdict at h
+  match extraFields, extLen with
+  | 0, _ => simp at h
+  | 1, none => simp at h
+  | 1, some len =>
+    simp only [Gen.MMR.MAX_EXTENSION_BYTES, Gen.MMR.CHAIN_ROOT_BYTES] at h
+    by_cases h0 : len = 0
+    · simp [h0] at h
+    · by_cases h1 : len > 96
+      · simp [h0, h1] at h
+      · by_cases h2 : len < 32
+        · simp [h0, h1, h2] at h
+        · cases rootAvailable <;> cases prefixIsRoot <;> cases extraHashOk <;> simp [h0, h1, h2] at h
+          exact ⟨rfl, ⟨len, rfl, by omega, by omega⟩, rfl, rfl, rfl⟩
+  | n + 2, _ => simp at h
+
+example : extensionVerdict true 1 (some 32) true true true = .ok ∧
+    extensionVerdict true 1 (some 97) true true true = .exceededMaximum ∧
+    extensionVerdict true 1 (some 31) true true true = .invalidBlockExtension ∧
+    extensionVerdict true 1 (some 40) true false true = .invalidChainRoot ∧
+    extensionVerdict true 0 none true true true = .noBlockExtension := by decide
 
 /-- **The root commits to the whole chain** (the algebraic core of proof soundness). If `merge` is
 injective — the collision-freeness assumption on the hash inside `MergeHeaderDigest::merge` — two
@@ -132,10 +200,7 @@ commitment, hence anything that verifies against it) of one fork can never be th
 fork of the same height. (Real header digests also carry block-number ranges, which separates
 different heights; the abstract `merge` here does not, hence the length hypothesis.)
 
-Full statement not proved (tied by correspondence and by the harness's accept/reject oracle only):
-`proof_sound`: `verify merge size proof root leaves = some true → every (pos, leaf) ∈ leaves is the
-leaf stored at `pos` in the chain of `root`` and `proof_complete`: `genProof` then `verify` succeeds,
-for the crate's queue-based multi-leaf algorithms (`genProof`, `calculateRoot` in Model/MMR.lean). -/
+See `proof_sound` for the verifier itself. -/
 theorem root_commits_to_chain (merge : α → α → α) (hinj : Injective2 merge) (l l' : List α)
     (hlen : l.length = l'.length)
     (hroot : bagD merge (specD merge l) = bagD merge (specD merge l')) : l = l' := by
@@ -162,6 +227,81 @@ theorem reorg_changes_root (merge : α → α → α) (hinj : Injective2 merge) 
   intro h
   have := root_commits_to_chain merge hinj (a ++ b) (a ++ c) (by simp [hlen]) h
   exact hbc (List.append_cancel_left this)
+
+/-- **Soundness of `MerkleProof::verify` (the crate's `calculate_root`, multi-leaf, as modelled in
+`Model/MMR.lean`).** Assume the digest algebra of `MergeHeaderDigest`: `merge` injective
+(collision-freeness), block-number ranges propagate (`start` of the left, `end` of the right
+operand), and the chain's leaf digests `L[i]` have `start = end = i` and are not merge outputs.
+Let `root` be the chain root of `L`. If `verify` accepts a proof — *any* proof items, any
+`mmr_size` — for claimed leaves at pairwise distinct positions, then every claimed value that has
+the form of a leaf digest (`lo x = hi x`, which a verifier gets by computing `header.digest()`
+itself) **is the chain's block with that number**: `L[lo x] = x`. So nothing that is not on the
+chain committed by `root` can be proved against it.
+
+The statement deliberately does not mention the claimed *position*: the generic verifier does not
+bind a value to its position (corpus/C19/mmr-position-not-bound.ops: with three leaves the genuine
+proof for leaf 2 also "proves" `(position of leaf 1, digest of block 2)`); it is the block number
+inside the digest that is bound.
+
+Not proved: `proof_complete` (`genProof` then `verify` succeeds for every non-empty set of leaf
+positions of the MMR) — tied by correspondence and by the harness's completeness oracle only. -/
+theorem proof_sound [DecidableEq α] (merge : α → α → α) (lo hi : α → Nat) (hR : RangeAlg merge lo hi)
+    (L : List α) (hL : ChainLeaves merge lo hi L) (root : α)
+    (hroot : bagD merge (specD merge L) = some root)
+    (leaves : List (Nat × α)) (mmrSize : Nat) (proof : List α)
+    (hnd : (leaves.map (·.1)).Nodup)
+    (hver : verify merge mmrSize proof root leaves = some true) :
+    ∀ p x, (p, x) ∈ leaves → lo x = hi x → L[lo x]? = some x := by
+  -- the verifier computed `root`
+  have hcalc : calculateRoot merge leaves mmrSize proof = some root := by
+    unfold verify at hver
+    cases hc : calculateRoot merge leaves mmrSize proof with
+    | none => simp [hc] at hver
+    | some r => simp [hc] at hver; rw [hver]
+  -- run it over expression trees instead
+  have hl : mapL (Expr.eval merge) (mapL Expr.atom leaves) = leaves := by
+    have : ((fun p : Nat × Expr α => (p.1, Expr.eval merge p.2)) ∘ fun p : Nat × α => (p.1, Expr.atom p.2)) = id := by
+      funext p; rfl
+    simp [mapL, this]
+  have hp : (proof.map Expr.atom).map (Expr.eval merge) = proof := by
+    simp [Expr.eval, Function.comp_def]
+  have hhom := calculateRoot_hom merge (mapL Expr.atom leaves) mmrSize (proof.map Expr.atom)
+  rw [hl, hp, hcalc] at hhom
+  cases hE : calculateRoot Expr.node (mapL Expr.atom leaves) mmrSize (proof.map Expr.atom) with
+  | none => rw [hE] at hhom; simp at hhom
+  | some E =>
+    rw [hE] at hhom
+    simp only [Option.map_some, Option.some.injEq] at hhom
+    have hnd' : ((mapL Expr.atom leaves).map (·.1)).Nodup := by
+      simpa [mapL, Function.comp_def] using hnd
+    have huse := calculateRoot_uses _ _ _ E hnd' hE
+    obtain ⟨T, hT, hslice⟩ := root_tree merge L root hroot
+    intro p x hx hlh
+    have hmem : (p, Expr.atom x) ∈ mapL Expr.atom leaves := List.mem_map.2 ⟨(p, x), hx, rfl⟩
+    have hxa : x ∈ E.atoms := huse _ hmem x (by simp [Expr.atoms])
+    exact sound_core hR hL E T 0 hslice (by rw [← hhom, hT]) x hxa hlh
+
+/-- the hypotheses of `proof_sound` are satisfiable: the free term algebra over numbered leaves -/
+example : RangeAlg Term.node
+      (fun t => Term.rec (fun i => i) (fun _ _ l _ => l) t) (fun t => Term.rec (fun i => i) (fun _ _ _ r => r) t) ∧
+    ChainLeaves Term.node
+      (fun t => Term.rec (fun i => i) (fun _ _ l _ => l) t) (fun t => Term.rec (fun i => i) (fun _ _ _ r => r) t)
+      [.leaf 0, .leaf 1, .leaf 2] := by
+  refine ⟨⟨?_, fun _ _ => rfl, fun _ _ => rfl⟩, ⟨?_, ?_⟩⟩
+  · intro a b c d h; cases h; exact ⟨rfl, rfl⟩
+  · intro i h
+    have : i = 0 ∨ i = 1 ∨ i = 2 := by simp at h; omega
+    rcases this with rfl | rfl | rfl <;> exact ⟨rfl, rfl⟩
+  · intro i h a b
+    have : i = 0 ∨ i = 1 ∨ i = 2 := by simp at h; omega
+    rcases this with rfl | rfl | rfl <;> simp
+
+/-- … and the verifier does accept a genuine proof there (leaf 1 of three leaves) -/
+example :
+    let m := pushAll Term.node ⟨0, Store.empty⟩ [.leaf 0, .leaf 1, .leaf 2]
+    (m.bind fun m => (genProof Term.node m [leafIndexToPos 1]).bind fun p =>
+      (getRoot Term.node m).bind fun r => verify Term.node m.size p r [(leafIndexToPos 1, .leaf 1)]) = some true := by
+  decide
 
 /-! ## block filter -/
 
